@@ -7,6 +7,7 @@ FUNCTIONS = [c.qualname for c in _c.CINITS + _c.REDUCES] + [c.qualname + "@" + c
 ENGINE = RefsEngine
 RAC = "rac/c12.py"
 RAC_BUDGET = {"quick": 50, "thorough": 300}
+RAC_MIN = {"quick": 68, "thorough": 68}      # fewer run-time evaluations than this = the harness skipped its work: checker broken, not "held"
 DESIGN_REF = "DESIGN.md section 4, C12"
 TECHNIQUE = "contract-based deductive verification of every __reduce__/__cinit__ pair (reduce returns the constructor arguments slot by slot; QF_UF, z3) + run-time pickle round trips"
 TRUSTED = ["the pickle protocol (memoisation preserves sharing, so restored refs point into the restored containers only)",
